@@ -425,18 +425,50 @@ func Run(cfg *Config, edgesFile, walksFile string, maxSamples int) (*Report, err
 		return sc.Err()
 	}
 	if edgesFile != "" {
+		const workers = 12
+		ch := make(chan *Edge, 256)
+		done := make(chan *replayer, workers)
+		for w := 0; w < workers; w++ {
+			go func() {
+				r := &replayer{cfg: cfg, rep: &Report{ByProp: map[string]int{}, ActionCounts: map[string]int{}}, seenNT: map[string]bool{}}
+				for e := range ch {
+					r.runEdge(e)
+				}
+				done <- r
+			}()
+		}
 		err := read(edgesFile, func(line string) error {
-			var e Edge
-			if err := decodeLine(line, &e); err != nil {
+			e := &Edge{}
+			if err := decodeLine(line, e); err != nil {
 				return fmt.Errorf("bad edge line: %w", err)
 			}
-			rp.runEdge(&e)
 			rp.rep.Edges++
 			if len(rp.rep.Samples) < maxSamples && (rp.rep.Edges%997 == 1) {
-				rp.rep.Samples = append(rp.rep.Samples, e)
+				rp.rep.Samples = append(rp.rep.Samples, *e)
 			}
+			ch <- e
 			return nil
 		})
+		close(ch)
+		for w := 0; w < workers; w++ {
+			r := <-done
+			rp.rep.Calls += r.rep.Calls
+			rp.rep.Comparisons += r.rep.Comparisons
+			rp.rep.Nontrivial += r.rep.Nontrivial
+			rp.rep.MismatchN += r.rep.MismatchN
+			rp.rep.DriftN += r.rep.DriftN
+			for k, v := range r.rep.ByProp {
+				rp.rep.ByProp[k] += v
+			}
+			for k, v := range r.rep.ActionCounts {
+				rp.rep.ActionCounts[k] += v
+			}
+			for _, m := range r.rep.Mismatches {
+				if len(rp.rep.Mismatches) < 60 {
+					rp.rep.Mismatches = append(rp.rep.Mismatches, m)
+				}
+			}
+		}
 		if err != nil {
 			return nil, err
 		}
